@@ -229,6 +229,25 @@ Section SW.
   Qed.
 End SW.
 
+(** The side condition of [sw_tua_progress] holds in every reachable state. *)
+Lemma sw_len_step wn n log o : (0 <= n)%Z -> (Z.of_nat (length log) <= n)%Z ->
+  (Z.of_nat (length (fst (sw_step Qops wn n log o))) <= n)%Z.
+Proof.
+  intros Hn H. pose proof (prune_length (time_of o - wn) log) as PL.
+  destruct o as [t|t]; cbn [sw_step time_of] in *.
+  - unfold sw_acquire. destruct (Z.ltb_spec (Z.of_nat (length (sw_prune (t - wn) log))) n); cbn [fst]; [|lia].
+    rewrite app_length. cbn [length]. lia.
+  - rewrite tua_fst. lia.
+Qed.
+
+Theorem sw_len_reachable wn n ops : (0 <= n)%Z -> forall log, (Z.of_nat (length log) <= n)%Z ->
+  (Z.of_nat (length (fst (run_count granted (sw_step Qops wn n) log ops))) <= n)%Z.
+Proof.
+  intros Hn. induction ops as [|o r IH]; intros log H; cbn [run_count]; [exact H|].
+  pose proof (sw_len_step wn n log o Hn H) as H1. destruct (sw_step Qops wn n log o) as [l1 x]. cbn [fst] in H1.
+  specialize (IH l1 H1). destruct (run_count granted (sw_step Qops wn n) l1 r) as [l2 k]. exact IH.
+Qed.
+
 Example sw_example :
   run_times (sw_step Qops 1000 2) [] [Acq 0; Acq 0; Acq 5; Acq 1000; Acq 1001; Acq 1001] = [0; 0; 1001; 1001] /\
   snd (sw_tua Qops 1000 2 [0; 5] 5) = 995 /\ snd (sw_tua Qops 1000 2 [0; 5] 1000) = 1.
